@@ -30,8 +30,9 @@ EXPLANATION = (
     "negates the shift where `roll` is emitted as `cshift` (opposite direction).  R2 the extent of the delay axis in the buffer's "
     "declared shape normalises (sympy) to M + c, c >= 1, with M the maximum of the very delays that index the read.  R3 the only "
     "conversion time -> steps, _preprocess_delay, is int(<rounding call>(delay / self.step_size)); every call site hands the caller's "
-    "own `discretize` flag (or the constant True) on.  R4 every literal that _collect_delays_from_edges substitutes for a missing/zero "
-    "delay (whole edge, or None entry of a delay list) equals the slot into which the ring buffers of _add_edge_buffer (the consumer of the "
+    "own `discretize` flag (or the constant True) on.  R4 every literal that _collect_delays_from_edges (or a helper extracted from its per-edge loop) substitutes for a missing/zero "
+    "delay (whole edge - on the arm taken when the delay is None, however the test is spelt -, or None entry of a delay list; the "
+    "construct is named by this role and the literal, not by statement text) equals the slot into which the ring buffers of _add_edge_buffer (the consumer of the "
     "collected delays) write the current value.  R5 delays, spreads and source indices are accumulated once "
     "per edge in the order of `edges`; every _add_edge_buffer call receives edges/delays/nodes of the same _collect_delays_from_edges "
     "result at the same granularity; the re-pointing loop walks `edges` in order and advances the slot range by len(nodes[i]).  "
@@ -174,8 +175,8 @@ def _source_param(ctx, f) -> str:
     cands = set()
     for n in walk_shallow(f.node):
         if isinstance(n, ast.Subscript) and isinstance(n.value, ast.Name) and n.value.id == f.self_name \
-                and isinstance(n.slice, ast.JoinedStr):
-            t = fstring_template(n.slice)
+                and isinstance(n.slice, (ast.JoinedStr, ast.Name, ast.BinOp)):
+            t = fstring_template(n.slice) if isinstance(n.slice, ast.JoinedStr) else U.render_expr(ctx, f, n.slice)
             parts = t.split("/")
             h = _single_hole(parts[-1])
             if len(parts) == 3 and h in f.params:
@@ -803,7 +804,7 @@ def _collector_roles(ctx, f):
                                                   and isinstance(s.target, ast.Name) and s.target.id == e.id]
         if not accumulated:
             continue            # e.g. the add_delay flag
-        roots = U.value_roots(ctx, f, e)
+        roots = U.value_roots(ctx, f, e, follow_calls=True)
         ks = {ROLE_OF_KEY[k] for k in roots["keys"] if k in ROLE_OF_KEY}
         if len(ks) == 1:
             roles[i] = ks.pop()
@@ -822,16 +823,21 @@ def r5_slot_order(ctx, rid):
     ctx.require(len(eparams) == 1, f"{rid}: _collect_delays_from_edges signature changed")
     ep = eparams[0]
     loops = [n for n in coll.node.body if isinstance(n, ast.For)]
-    main = [l for l in loops if isinstance(l.iter, ast.Name) and l.iter.id == ep]
+
+    def in_order(it):
+        return U.iterates_in_order(ctx, coll, it, ep)
+
+    cands = [(l, in_order(l.iter)) for l in loops]
+    main = [l for l, o in cands if o is True]
     if len(main) != 1:
-        others = [l for l in loops if ep in {x.id for x in ast.walk(l.iter) if isinstance(x, ast.Name)}]
-        if others:
+        others = [l for l, o in cands if o is False]
+        if others and not main:
             ctx.violation(rid, coll, others[0], f"the per-edge loop iterates `{ast.unparse(others[0].iter)}` instead of `{ep}` itself: slots would be "
                                                 f"collected in another order than the one in which _add_edge_buffer hands them back",
                           label="per-edge accumulation")
             main = None
         else:
-            raise AnalysisError(f"{rid}: per-edge loop over `{ep}` not found in {coll.qualname}")
+            raise AnalysisError(f"{rid}: per-edge loop over `{ep}` not found in {coll.qualname} (unrecognised form)")
     if main:
         loop = main[0]
         facts = {"loop": norm(loop), "accumulators": accs}
@@ -860,19 +866,21 @@ def r5_slot_order(ctx, rid):
     sites = [(g, c) for g, c in ctx.cg.call_sites_of(addb)]
     ctx.require(sites, f"{rid}: no call site of _add_edge_buffer resolved")
     for g, call in sorted(sites, key=lambda s: (s[0].qual, s[1].lineno)):
-        _check_call_site(ctx, rid, g, call, coll, roles)
+        _check_call_site(ctx, rid, g, call, coll, roles, addb)
     # ---- (c) the re-pointing loop
     _check_repoint(ctx, rid, addb)
 
 
-def _collect_binding(ctx, g, name_node: ast.Name, coll):
+def _collect_binding(ctx, g, name_node: ast.Name, coll, _depth=0):
     """If name is bound by `a, b, c, d = self._collect_delays_from_edges(E)`: (position, call)."""
     defs = ctx.rd(g).defs_reaching(name_node)
     if len(defs) != 1 or not isinstance(defs[0], ast.Assign):
         return None
     st = defs[0]
-    if not (isinstance(st.value, ast.Call) and call_name(st.value) == coll.node.name and len(st.targets) == 1
-            and isinstance(st.targets[0], ast.Tuple)):
+    if _depth < 3 and isinstance(assigned_value(st, name_node.id), ast.Name):        # plain alias `d2 = delays`
+        return _collect_binding(ctx, g, assigned_value(st, name_node.id), coll, _depth + 1)
+    if not (isinstance(st.value, ast.Call) and len(st.targets) == 1 and isinstance(st.targets[0], ast.Tuple)
+            and (U.resolve_single(ctx, g, st.value) is coll or call_name(st.value) == coll.node.name)):
         return None
     for i, t in enumerate(st.targets[0].elts):
         if isinstance(t, ast.Name) and t.id == name_node.id:
@@ -880,8 +888,8 @@ def _collect_binding(ctx, g, name_node: ast.Name, coll):
     return None
 
 
-def _check_call_site(ctx, rid, g, call: ast.Call, coll, roles):
-    kw = {k.arg: k.value for k in call.keywords}
+def _check_call_site(ctx, rid, g, call: ast.Call, coll, roles, addb=None):
+    kw = U.bind_args(addb, call) if addb is not None else {k.arg: k.value for k in call.keywords}
     st = call
     while not isinstance(st, ast.stmt):
         st = parent(st)
@@ -917,8 +925,8 @@ def _check_call_site(ctx, rid, g, call: ast.Call, coll, roles):
             zips.add(id(loop))
         b = _collect_binding(ctx, g, whole, coll)
         if b is None:
-            problems.append(f"{kwname}={ast.unparse(kw[kwname])} is not taken from a _collect_delays_from_edges result")
-            continue
+            raise AnalysisError(f"{rid}: {g.qual}: cannot trace {kwname}={ast.unparse(kw[kwname])} back to a component of a "
+                                f"_collect_delays_from_edges result (unrecognised form)")
         pos, ccall = b
         coll_calls.add(id(ccall))
         facts[kwname] = f"position {pos} of {ast.unparse(ccall)} ({roles.get(pos)})"
@@ -967,8 +975,10 @@ def _check_repoint(ctx, rid, f):
     facts = {"loop": norm(loop), "store": norm(store)}
     problems = []
     # the loop walks the `edges` parameter in order
-    zip_args = it.args if isinstance(it, ast.Call) and call_name(it) == "zip" else [it]
-    if not (isinstance(zip_args[0], ast.Name) and zip_args[0].id == "edges" and U.is_param(ctx, f, zip_args[0])):
+    order = U.iterates_in_order(ctx, f, loop.iter, "edges")
+    if order is None:
+        raise AnalysisError(f"{rid}: {f.qual}: cannot tell whether `{norm(loop)}` walks the `edges` parameter front to back (unrecognised form)")
+    if not order:
         problems.append(f"the loop iterates `{ast.unparse(it)}`, not the `edges` parameter in its own order")
     # the range
     v = store.value
@@ -998,6 +1008,8 @@ def _check_repoint(ctx, rid, f):
     idx_name = None
     if has_idx and isinstance(loop.target, ast.Tuple) and isinstance(loop.target.elts[0], ast.Name):
         idx_name = loop.target.elts[0].id
+    elif isinstance(loop.target, ast.Name) and isinstance(loop.iter, ast.Call) and call_name(loop.iter) == "range":
+        idx_name = loop.target.id           # index loop `for i in range(len(edges))`
     exp_ok = False
     if idx_name is not None and width == sp.Function("len")(sp.Symbol(f"nodes[{idx_name}]")):
         exp_ok = True
@@ -1039,18 +1051,74 @@ def _check_repoint(ctx, rid, f):
         ctx.ok(rid, f, loop, "edge i receives the slots [sum_{j<i} len(nodes[j]), + len(nodes[i])) in the order of `edges`", facts,
                label="slots handed back to the edges")
     # flatten order
-    flat = [l for l in walk_shallow(f.node) if isinstance(l, ast.For) and isinstance(l.iter, ast.Name) and l.iter.id == "nodes"
-            and U.is_param(ctx, f, l.iter)]
-    if len(flat) == 1 and isinstance(flat[0].target, ast.Name) and len(flat[0].body) == 1 and isinstance(flat[0].body[0], ast.AugAssign) \
-            and isinstance(flat[0].body[0].op, ast.Add) and isinstance(flat[0].body[0].value, ast.Name) \
-            and flat[0].body[0].value.id == flat[0].target.id:
-        ctx.ok(rid, f, flat[0], "the per-edge source-index lists are concatenated in the order of `nodes`", label="source indices flattened in order",
-               nontrivial=False)
-    elif flat:
-        ctx.violation(rid, f, flat[0], "the per-edge source-index lists are not concatenated in order: slot k of the buffered variable would "
-                                       "read another edge's source element", label="source indices flattened in order")
+    _check_flatten(ctx, rid, f)
+
+
+REORDER_CALLS = {"sorted", "reversed", "set", "frozenset", "unique", "shuffle", "permutation", "flip", "sort"}
+
+
+def _check_flatten(ctx, rid, f):
+    """The per-edge source-index lists (`nodes`) are concatenated front to back: a loop `for n in nodes: acc += n`, a nested
+    comprehension `[i for n in nodes for i in n]`, or sum(nodes, []) / chain.from_iterable(nodes) / concatenate(nodes) / hstack(nodes)."""
+    label = "source indices flattened in order"
+
+    def is_nodes(e):
+        return isinstance(e, ast.Name) and e.id == "nodes" and U.is_param(ctx, f, e)
+
+    def reordered(e):
+        """`e` is the nodes parameter under a re-ordering wrapper (sorted(nodes), nodes[::-1], ...)."""
+        if isinstance(e, ast.Call) and call_name(e) in REORDER_CALLS and e.args and (is_nodes(e.args[0]) or reordered(e.args[0])):
+            return True
+        if isinstance(e, ast.Subscript) and isinstance(e.slice, ast.Slice) and is_nodes(e.value):
+            sl = e.slice
+            return not (sl.lower is None and sl.upper is None and sl.step is None)
+        return False
+
+    good, bad, unknown = [], [], []
+    for n in walk_shallow(f.node):
+        if isinstance(n, ast.For) and (is_nodes(n.iter) or reordered(n.iter)):
+            ok_body = isinstance(n.target, ast.Name) and len(n.body) == 1 and (
+                (isinstance(n.body[0], ast.AugAssign) and isinstance(n.body[0].op, ast.Add) and isinstance(n.body[0].value, ast.Name)
+                 and n.body[0].value.id == n.target.id)
+                or (isinstance(n.body[0], ast.Expr) and isinstance(n.body[0].value, ast.Call) and call_name(n.body[0].value) == "extend"
+                    and len(n.body[0].value.args) == 1 and isinstance(n.body[0].value.args[0], ast.Name)
+                    and n.body[0].value.args[0].id == n.target.id))
+            prepend = isinstance(n.target, ast.Name) and len(n.body) == 1 and (
+                (isinstance(n.body[0], ast.Assign) and isinstance(n.body[0].value, ast.BinOp) and isinstance(n.body[0].value.op, ast.Add)
+                 and isinstance(n.body[0].value.left, ast.Name) and n.body[0].value.left.id == n.target.id)
+                or (isinstance(n.body[0], ast.Expr) and isinstance(n.body[0].value, ast.Call) and call_name(n.body[0].value) == "insert"))
+            if ok_body and is_nodes(n.iter):
+                good.append(n)
+            elif ok_body or prepend:
+                bad.append(n)
+            else:
+                unknown.append(n)
+        elif isinstance(n, (ast.ListComp, ast.GeneratorExp)) and n.generators and (is_nodes(n.generators[0].iter) or reordered(n.generators[0].iter)):
+            gens = n.generators
+            if len(gens) == 1:
+                continue        # e.g. [len(n) for n in nodes]: not a concatenation
+            ok_comp = len(gens) == 2 and isinstance(gens[0].target, ast.Name) and isinstance(gens[1].iter, ast.Name) \
+                and gens[1].iter.id == gens[0].target.id and isinstance(gens[1].target, ast.Name) and isinstance(n.elt, ast.Name) \
+                and n.elt.id == gens[1].target.id and not gens[0].ifs and not gens[1].ifs
+            if ok_comp:
+                (good if is_nodes(gens[0].iter) else bad).append(n)
+            else:
+                unknown.append(n)
+        elif isinstance(n, ast.Call) and n.args and (is_nodes(n.args[0]) or reordered(n.args[0])
+                                                     or (isinstance(n.args[0], ast.Starred) and is_nodes(n.args[0].value))):
+            cn = call_name(n)
+            if cn in ("concatenate", "hstack", "from_iterable", "chain") or (cn == "sum" and len(n.args) == 2):
+                (good if not reordered(n.args[0]) else bad).append(n)
+    if bad:
+        st = U.stmt_of_expr(bad[0])
+        ctx.violation(rid, f, st, "the per-edge source-index lists are not concatenated in order: slot k of the buffered variable would "
+                                  "read another edge's source element", label=label)
+    elif len(good) == 1 and not bad:
+        st = U.stmt_of_expr(good[0])
+        ctx.ok(rid, f, st, "the per-edge source-index lists are concatenated in the order of `nodes`", label=label, nontrivial=False)
     else:
-        raise AnalysisError(f"{rid}: {f.qual}: flattening loop over `nodes` not found (unrecognised form)")
+        raise AnalysisError(f"{rid}: {f.qual}: flattening of `nodes` not found or ambiguous (unrecognised form; {len(good)} recognised, "
+                            f"{len(unknown)} unrecognised uses)")
 
 
 
